@@ -469,13 +469,33 @@ func (s *seqRT) ruleSync() {
 	for _, h := range hits {
 		c.bad("SEQ.SYNC", h.what+" in "+relName(h.fn), s.w.Pos(h.pos), "the runtime must execute steps synchronously inside the advancing call and must not intercept panics: "+h.what)
 	}
-	// channel receives: only on the user's channel in the chan iterator's advance
+	// channel receives: the runtime never creates a channel, so a receive can only be on a channel the user
+	// handed to it (the range-over-channel iterator); where the receive sits (a method, a closure built by the
+	// constructor) is a matter of representation
+	made := 0
+	for _, f := range s.w.FuncsOf(pathSeq) {
+		for _, b := range f.Blocks {
+			for _, ins := range b.Instrs {
+				if mc, ok := ins.(*ssa.MakeChan); ok {
+					made++
+					c.bad("SEQ.SYNC", "channel created in "+relName(f), s.w.Pos(mc.Pos()), "the runtime creates a channel of its own: steps could be handed to another goroutine instead of running inside the advancing call")
+				}
+			}
+		}
+	}
 	for _, f := range s.w.FuncsOf(pathSeq) {
 		for _, b := range f.Blocks {
 			for _, ins := range b.Instrs {
 				if u, ok := ins.(*ssa.UnOp); ok && u.Op == token.ARROW {
-					recvOK := f.Signature.Recv() != nil && f.Name() == "MoveNext"
-					c.check(recvOK, "SEQ.SYNC", "channel receive in "+relName(f), s.w.Pos(u.Pos()), "receive is the range-over-channel iterator's advance on the user's channel", "channel receive outside an iterator's MoveNext")
+					_, isConst := u.X.(*ssa.Const)
+					_, isGlobalLoad := func() (ssa.Value, bool) {
+						if l, ok := u.X.(*ssa.UnOp); ok && l.Op == token.MUL {
+							g, ok := l.X.(*ssa.Global)
+							return g, ok
+						}
+						return nil, false
+					}()
+					c.check(made == 0 && !isConst && !isGlobalLoad, "SEQ.SYNC", "channel receive in "+relName(f), s.w.Pos(u.Pos()), "the runtime creates no channel and the operand is not a nil constant or a package variable: the receive is on the user's channel (range over a channel)", "channel receive on a channel of the runtime's own")
 				}
 			}
 		}
